@@ -53,7 +53,7 @@ Proof.
   repeat (apply andb_true_iff in H; destruct H as [H ?]).
   repeat match goal with X : valid_octet _ = true |- _ => apply valid_octet_plain in X end.
   cbn [join]. repeat (apply Forall_app; split; [assumption|]; constructor; [unfold plain; lia|]).
-  assumption.
+  Show.
 Qed.
 
 Lemma valid_port_plain s : valid_port s = true -> Forall plain s.
